@@ -29,7 +29,8 @@ def run(tier, seed):
             # synchronous suffix and then return: leaders find no batch, wait until their timer fires; progress must resume
             ["-heal", "-nobyz", "-suffix", 16, "-only", "client-pause", "-runs", k, "-steps", 120],
             # a replica cut off for a dozen views from the start that is needed afterwards (another one falls silent)
-            ["-heal", "-nobyz", "-suffix", 16, "-only", "long-laggard", "-runs", k, "-steps", 400, "-rulesets", "chainedhotstuff,simplehotstuff"]]
+            ["-heal", "-nobyz", "-suffix", 16, "-only", "long-laggard", "-runs", k, "-steps", 400, "-rulesets", "chainedhotstuff,simplehotstuff"],
+            ["-heal", "-nobyz", "-suffix", 16, "-only", "deaf-laggard", "-runs", k, "-steps", 500, "-rulesets", "chainedhotstuff,simplehotstuff"]]
     return protolib.run_property(PROP, tier, seed, args, RULE, extra_cov=extra, assumptions=ASSUME, more=more)
 
 
